@@ -84,13 +84,30 @@ def gen_match (rng, respect=True):
     it['nw_proto'] = m.nw_proto = nw_proto
   if (ip or not respect) and maybe():
     it['nw_tos'] = m.nw_tos = rng.randrange(64) << 2
+  addr = {}
   if (ip or arp or not respect):
-    if maybe(0.7):
-      it['nw_src'] = m.nw_src = (IPAddr(rint(rng, 32)), rng.choice([32, 32, 24, 16, 8, 1, 31,
-                                                     rng.randrange(1, 33)]))
-    if maybe(0.7):
-      it['nw_dst'] = m.nw_dst = (IPAddr(rint(rng, 32)), rng.choice([32, 32, 24, 16, 8, 1, 31,
-                                                     rng.randrange(1, 33)]))
+    for f in ("nw_src", "nw_dst"):
+      if not maybe(0.7): continue
+      a = rint(rng, 32)
+      bits = rng.choice([32, 32, 24, 16, 8, 1, 31, rng.randrange(1, 33)])
+      how = rng.randrange(6) if respect else 0
+      if how == 0:
+        v = (IPAddr(a), bits)
+      else:
+        # the other ways a caller may write an address with a prefix length:
+        # CIDR text, netmask text, a bare address (text or object)
+        if how in (1, 2): a &= (0xffffffff << (32 - bits)) & 0xffffffff
+        txt = "%d.%d.%d.%d" % (a >> 24, (a >> 16) & 255, (a >> 8) & 255, a & 255)
+        if how == 1: v = "%s/%d" % (txt, bits)
+        elif how == 2:
+          mk = (0xffffffff << (32 - bits)) & 0xffffffff
+          v = "%s/%d.%d.%d.%d" % (txt, mk >> 24, (mk >> 16) & 255, (mk >> 8) & 255, mk & 255)
+        elif how == 3: v = txt; bits = 32
+        elif how == 4: v = IPAddr(a); bits = 32
+        else: v = (txt, bits)
+      setattr(m, f, v)
+      it[f] = (v, bits)
+      addr[f] = a
   if ((ip and nw_proto in (1, 6, 17)) or not respect):
     if maybe(): it['tp_src'] = m.tp_src = rint(rng, 16) if nw_proto != 1 else rint(rng, 8)
     if maybe(): it['tp_dst'] = m.tp_dst = rint(rng, 16) if nw_proto != 1 else rint(rng, 8)
@@ -101,6 +118,7 @@ def gen_match (rng, respect=True):
     for f in ("nw_src", "nw_dst"):
       if f in it: it[f] = it[f][1]
     m._pvm_intent = it
+    m._pvm_addr = addr
   return m
 
 
@@ -145,6 +163,8 @@ def match_fields (m):
   d["dl_dst"] = raw_of(m.dl_dst, 6)
   d["nw_src"] = ip_of(m.nw_src)
   d["nw_dst"] = ip_of(m.nw_dst)
+  # (the address as the generator wrote it, whatever notation it used)
+  for f, a in getattr(m, "_pvm_addr", {}).items(): d[f] = a
   return d
 
 
@@ -283,7 +303,12 @@ def packet_queue_fields (q):
 
 # ---------------------------------------------------------------- stats
 
-STATS_KINDS = ["desc", "flow", "aggregate", "table", "port", "queue", "vendor"]
+STATS_KINDS = ["desc", "flow", "aggregate", "table", "port", "queue", "vendor",
+               "unknown"]
+# (openflow.h, enum ofp_stats_types)
+SPEC_STATS_TYPE = dict(desc=0, flow=1, aggregate=2, table=3, port=4, queue=5,
+                       vendor=0xffff)
+UNKNOWN_STATS_TYPES = [6, 77, 0x1234, 0xfffe]
 
 
 def gen_stats_request (rng, kind=None):
@@ -302,11 +327,21 @@ def gen_stats_request (rng, kind=None):
   elif k == "queue":
     body = o.ofp_queue_stats_request(port_no=rint(rng, 16),
                                      queue_id=rint(rng, 32))
+  elif k == "unknown":
+    # a statistics type this library has no class for: the body is bytes
+    t = rng.choice(UNKNOWN_STATS_TYPES)
+    m = o.ofp_stats_request(xid=rint(rng, 32), type=t,
+                            body=rbytes(rng, rlen(rng, (0, 1, 4, 8, 33))),
+                            flags=rng.choice([0, 0, 1, 0xffff]))
+    m._pvm_stype = t
+    return m
   else:
     body = o.ofp_vendor_stats_generic(vendor=rint(rng, 32),
                                       data=rbytes(rng, rlen(rng, (0, 4, 8, 33))))
-  return o.ofp_stats_request(xid=rint(rng, 32), body=body,
-                             flags=rng.choice([0, 0, 1, 0xffff]))
+  m = o.ofp_stats_request(xid=rint(rng, 32), body=body,
+                          flags=rng.choice([0, 0, 1, 0xffff]))
+  m._pvm_stype = SPEC_STATS_TYPE[k]
+  return m
 
 
 def gen_stats_entry (rng, k):
@@ -352,13 +387,25 @@ def gen_stats_entry (rng, k):
 def gen_stats_reply (rng, kind=None, n=None):
   o = of()
   k = kind or rng.choice(STATS_KINDS)
+  if k == "unknown":
+    t = rng.choice(UNKNOWN_STATS_TYPES)
+    m = o.ofp_stats_reply(xid=rint(rng, 32), type=t,
+                          body=rbytes(rng, rlen(rng, (0, 1, 4, 8, 33))),
+                          flags=rng.choice([0, 0, 1, 0xffff]))
+    m._pvm_stype = t
+    return m
+  kw = {}
   if k in ("flow", "table", "port", "queue"):
-    if n is None: n = rng.choice([1, 1, 2, 3, 5])
+    if n is None: n = rng.choice([1, 1, 2, 3, 5, 0])
     body = [gen_stats_entry(rng, k) for _ in range(n)]
+    # (an empty list says nothing about its type: it has to be given)
+    if n == 0: kw["type"] = SPEC_STATS_TYPE[k]
   else:
     body = gen_stats_entry(rng, k)
-  return o.ofp_stats_reply(xid=rint(rng, 32), body=body,
-                           flags=rng.choice([0, 0, 1, 0xffff]))
+  m = o.ofp_stats_reply(xid=rint(rng, 32), body=body,
+                        flags=rng.choice([0, 0, 1, 0xffff]), **kw)
+  m._pvm_stype = SPEC_STATS_TYPE[k]
+  return m
 
 
 def stats_body_fields (body, reply):
@@ -483,9 +530,39 @@ def gen_message (rng, kind=None, payload_lens=None):
     return o.ofp_port_status(xid=xid, reason=rint(rng, 8),
                              desc=gen_phy_port(rng))
   if k == "packet_out":
-    if rng.random() < 0.4:
+    r = rng.random()
+    if r < 0.3:
       return o.ofp_packet_out(xid=xid, buffer_id=rint(rng, 32) & 0x7fffffff,
                               in_port=rint(rng, 16), actions=gen_actions(rng))
+    if r < 0.45:
+      # "send this packet-in back out": the packet-in object itself is the
+      # data; buffer id (or, without one, the frame) and ingress port are
+      # taken over from it
+      frame = rbytes(rng, rlen(rng, (14, 60, 100)))
+      bid = rng.choice([None, None, 0, 1, rint(rng, 32) & 0x7fffffff])
+      pin = o.ofp_packet_in(xid=rint(rng, 32), in_port=rint(rng, 16), buffer_id=bid,
+                            reason=0, data=frame)
+      want = dict(in_port=pin.in_port,
+                  buffer_id=0xffffffff if bid is None else bid,
+                  data=frame if bid is None else b"")
+      acts = gen_actions(rng)
+      if rng.random() < 0.5 and acts:
+        m = o.ofp_packet_out(xid=xid, data=pin, action=acts[0])
+      else:
+        m = o.ofp_packet_out(xid=xid, data=pin, actions=acts)
+      m._pvm_over = want
+      return m
+    if r < 0.55:
+      # the frame as a packet object
+      import pox.lib.packet as pkt
+      from pox.lib.addresses import EthAddr
+      payload = rbytes(rng, rlen(rng, (0, 1, 46, 100)))
+      e = pkt.ethernet(src=EthAddr(rmac(rng)), dst=EthAddr(rmac(rng)), type=0x88b5)
+      e.payload = payload
+      m = o.ofp_packet_out(xid=xid, in_port=rint(rng, 16), actions=gen_actions(rng),
+                           data=e)
+      m._pvm_over = dict(data=e.dst.toRaw() + e.src.toRaw() + b"\x88\xb5" + payload)
+      return m
     return o.ofp_packet_out(xid=xid, in_port=rint(rng, 16),
                             actions=gen_actions(rng),
                             data=rbytes(rng, rlen(rng, pl)))
@@ -521,8 +598,7 @@ def buf_of (v):
   return 0xffffffff if v is None else v
 
 
-def message_fields (m):
-  """(ofwire message name, field dict) of a libopenflow message object."""
+def _message_fields (m):
   o = of()
   d = {"xid": m.xid}
   T = type(m)
@@ -578,10 +654,12 @@ def message_fields (m):
              mask=m.mask, advertise=m.advertise)
     return "port_mod", d
   if T is o.ofp_stats_request:
-    d.update(type=m.type, flags=m.flags, body=stats_body_fields(m.body, False))
+    d.update(type=getattr(m, "_pvm_stype", m.type), flags=m.flags,
+             body=stats_body_fields(m.body, False))
     return "stats_request", d
   if T is o.ofp_stats_reply:
-    d.update(type=m.type, flags=m.flags, body=stats_body_fields(m.body, True))
+    d.update(type=getattr(m, "_pvm_stype", m.type), flags=m.flags,
+             body=stats_body_fields(m.body, True))
     return "stats_reply", d
   if T is o.ofp_barrier_request: return "barrier_request", d
   if T is o.ofp_barrier_reply: return "barrier_reply", d
@@ -591,3 +669,12 @@ def message_fields (m):
     d.update(port=m.port, queues=[packet_queue_fields(q) for q in m.queues])
     return "queue_get_config_reply", d
   raise TypeError("message %r" % (T,))
+
+
+def message_fields (m):
+  """(ofwire message name, field dict) of a libopenflow message object;
+  where the generator handed a field over in another form than its plain
+  value (another object to take it from), what it meant is what counts."""
+  name, d = _message_fields(m)
+  d.update(getattr(m, "_pvm_over", {}))
+  return name, d
